@@ -18,7 +18,7 @@ from ..rules import call_sites, node_calls, require_before, check_take_and_clear
 from ..mutate import mutate, remove_stmts, replace_stmt, replace_expr, parse_stmt, parse_expr
 from ..model import AnalysisError
 from ..x_scope import own_nodes, strip_annotations
-from ..x_flow import protected, resolve_local, concrete_paths
+from ..x_flow import protected, resolve_local, concrete_paths, expand_locals
 
 TECHNIQUE = "dominance on the CFG + path-sensitive typestate with abstract evaluation of the wait-status macros + take-and-clear / settle-discipline lint"
 EXPLANATION = (
@@ -203,9 +203,10 @@ def rule_try_cleanup(ck):
             return (a, b, frozenset(["nochild"]))
         if n.id == wpn.id:
             return (a, b, BOTH)
-        if n.kind == "test" and kind in ("true", "false") and rp in q.names_in(n.ast) and k is not None and k <= BOTH:
+        test_ = expand_locals(fi, n.ast, keep={rp, pidp}) if n.kind == "test" else None
+        if n.kind == "test" and kind in ("true", "false") and rp in q.names_in(test_) and k is not None and k <= BOTH:
             try:
-                keep = frozenset(c for c in k if bool(q.fold(n.ast, ENV[c])) == (kind == "true"))
+                keep = frozenset(c for c in k if bool(q.fold(test_, ENV[c])) == (kind == "true"))
             except q.NotFoldable as e:
                 raise AnalysisError("test %s on the waitpid result cannot be evaluated (%s)" % (q.unparse(n.ast), e))
             if not keep:
